@@ -29,7 +29,8 @@ CONFIGS = ['default', 'string-atom', 'custom-operators', 'unit-parser', 'subset-
 FAIL_KINDS = ['unknown-atom', 'missing-operand', 'unbalanced-open', 'unbalanced-close', 'arity', 'nested-argument', 'atom-ctor']
 REQUIRED_CLASSES = (['cfg-' + c for c in CONFIGS] + ['fail-' + k for k in FAIL_KINDS] +
                     ['valid-after-failure', 'failure-after-failure', 'valid-after-valid', 'failure-after-valid',
-                     'atom-ctor-fault-after-first-atom', 'failure-in-operate-phase', 'repeated-text'] +
+                     'atom-ctor-fault-after-first-atom', 'failure-in-operate-phase', 'repeated-text',
+                     'expression-object-input', 'expression-object-input-after-failure'] +
                     ['cfg-%s:fail-atom-ctor' % c for c in CONFIGS])
 REQUIRED_MONITORS = ['differential_compares', 'step_guarded_calls', 'fresh_instances']
 ASSUMPTIONS = ['outcome of a solve = value (rtol 1e-12, equal truthiness; strings / unit atoms exactly) or (exception type, repr(args))',
@@ -257,7 +258,8 @@ def gen_entry(rng, cfg, kind):
     elif kind == 'atom-ctor' and atoms:
         fail_at = rng.randint(1, len(atoms))
     gaps = R.blanks(rng, len(toks)) if rng.random() < 0.6 else None
-    return dict(text=R.render(toks, gaps), fail_at=fail_at, kind=kind)
+    # solve() takes a string or an Expression object: a quarter of the calls hand the text over as an object
+    return dict(text=R.render(toks, gaps), fail_at=fail_at, kind=kind, as_object=rng.random() < 0.25)
 
 
 KINDS_FOR = {
@@ -305,7 +307,11 @@ def plain_value(r):
 def observe(ctx, make, instance, entry):
     ctx['fault'].arm(entry.get('fail_at'))
     es = instance if instance is not None else make()
-    kind, r = ctx['guard'].run(es.solve, entry['text'])
+    arg = entry['text']
+    if entry.get('as_object'):
+        from scinumtools.solver import Expression
+        arg = Expression(entry['text'])
+    kind, r = ctx['guard'].run(es.solve, arg)
     ctx['fault'].arm(None)
     if kind == 'v':
         return ('v', plain_value(r))
@@ -379,6 +385,10 @@ def run_case(case, ctx):
                 classes.add('failure-in-operate-phase')
         if entry['kind'] == 'repeat':
             classes.add('repeated-text')
+        if entry.get('as_object'):
+            classes.add('expression-object-input')
+            if prev_failed:
+                classes.add('expression-object-input-after-failure')
         if prev_failed is not None:
             classes.add('%s-after-%s' % ('failure' if failed else 'valid', 'failure' if prev_failed else 'valid'))
             if prev_failed or any(r[3] for r in rows):
